@@ -37,8 +37,10 @@ import (
 	"github.com/ethereum/go-ethereum/common"
 	ethtypes "github.com/ethereum/go-ethereum/core/types"
 	"github.com/ethereum/go-ethereum/crypto"
+	keeperutil "github.com/palomachain/paloma/v2/util/keeper"
 	"github.com/palomachain/paloma/v2/x/consensus"
 	consensuskeeper "github.com/palomachain/paloma/v2/x/consensus/keeper"
+	cqueue "github.com/palomachain/paloma/v2/x/consensus/keeper/consensus"
 	ct "github.com/palomachain/paloma/v2/x/consensus/types"
 	et "github.com/palomachain/paloma/v2/x/evm/types"
 	metrixtypes "github.com/palomachain/paloma/v2/x/metrix/types"
@@ -340,23 +342,26 @@ func (w *world) enqueueSLC(ctx sdk.Context) (uint64, error) {
 
 // ---------------------------------------------------------------------------------------------
 type run struct {
-	w      *world
-	ctx    sdk.Context
-	reg    *registry
-	idBase uint64
-	height int64
-	kinds  map[uint64]string // kind of every message ever seen (real id)
-	encs   map[string][]byte // reference encodings ever computed: "id/k"
+	w       *world
+	ctx     sdk.Context
+	reg     *registry
+	idBase  uint64
+	height  int64
+	height0 int64
+	kinds   map[uint64]string // kind of every message ever seen (real id)
+	encs    map[string][]byte // reference encodings ever computed: "id/k"
 }
 
 func (w *world) newRun(ctx sdk.Context, reg *registry, idBase uint64) *run {
 	r := &run{w: w, ctx: ctx, reg: reg, idBase: idBase, kinds: map[uint64]string{}, encs: map[string][]byte{}}
 	r.height = ctx.BlockHeight()
+	r.height0 = r.height
 	return r
 }
 
 type args struct {
 	W    int    `json:"w"`
+	D    int    `json:"d"`
 	Kind string `json:"kind"`
 	V    int    `json:"v"`
 	M    int    `json:"m"`
@@ -595,7 +600,8 @@ func (r *run) refEncode(m ct.QueuedSignedMessageI, k int, corr string) ([]byte, 
 		}
 		fee := func(f *et.Fees, sender []byte) (feeArgsT, error) {
 			if f == nil {
-				return feeArgsT{}, fmt.Errorf("message has no fees yet")
+				// no elected fees yet: the defaults relayers (and the signing bytes, and VerifyAgainstTX) use
+				f = &et.Fees{RelayerFee: 100_000, CommunityFee: 100_000, SecurityFee: 100_000}
 			}
 			o := feeArgsT{new(big.Int).SetUint64(f.RelayerFee), new(big.Int).SetUint64(f.CommunityFee), new(big.Int).SetUint64(f.SecurityFee), pad32(sender)}
 			if has(corr, "fee") {
@@ -857,6 +863,7 @@ func (r *run) observe() map[string]any {
 	it.Close()
 	sort.Ints(ps)
 	o["processed"] = ps
+	o["height"] = int(r.height - r.height0)
 	succ, recs := 0, 0
 	for _, v := range e.Vals {
 		h, err := e.Metrix.GetValidatorHistory(ctx, v.Val)
@@ -890,12 +897,20 @@ func (r *run) evObs(ev *ct.Evidence) map[string]any {
 	switch p := h.(type) {
 	case *et.TxExecutedProof:
 		o["t"] = "tx"
-		if tx, err := p.GetTX(); err == nil {
+		// decoded with go-ethereum directly, never with the accessors of the code under test
+		tx := new(ethtypes.Transaction)
+		if err := tx.UnmarshalBinary(p.SerializedTX); err == nil {
 			o["did"] = r.reg.did(tx.Data())
 			o["hid"] = r.reg.hid(tx.Hash())
 		}
-		o["st"] = "fail"
-		if rc, err := p.GetReceipt(); err == nil {
+		rc := new(ethtypes.Receipt)
+		switch {
+		case len(p.SerializedReceipt) == 0:
+			o["st"] = "absent"
+		case rc.UnmarshalBinary(p.SerializedReceipt) != nil:
+			o["st"] = "bad"
+		default:
+			o["st"] = "fail"
 			if rc.Status == ethtypes.ReceiptStatusSuccessful {
 				o["st"] = "ok"
 			}
@@ -1038,7 +1053,19 @@ func (r *run) step(s drv.Step) (res string, extra map[string]any) {
 			}
 			raw, err := tx.MarshalBinary()
 			must(err)
-			p, err := codectypes.NewAnyWithValue(&et.TxExecutedProof{SerializedTX: raw, SerializedReceipt: r.receipt(tx, a.St == "ok", a.Rg)})
+			// the receipt component: ok / failed status, no receipt at all, empty bytes, bytes that are no receipt
+			var rcpt []byte
+			switch a.St {
+			case "ok", "fail":
+				rcpt = r.receipt(tx, a.St == "ok", a.Rg)
+			case "absent":
+				rcpt = nil
+			case "empty":
+				rcpt = []byte{}
+			default:
+				rcpt = []byte{0xde, 0xad, 0xbe, 0xef}
+			}
+			p, err := codectypes.NewAnyWithValue(&et.TxExecutedProof{SerializedTX: raw, SerializedReceipt: rcpt})
 			must(err)
 			proof = p
 			txhash = tx.Hash().Bytes()
@@ -1076,6 +1103,11 @@ func (r *run) step(s drv.Step) (res string, extra map[string]any) {
 		} else {
 			extra["err"] = err.Error()
 		}
+	case "Advance":
+		// d blocks pass (60 s each, which keeps the relayer pick stable); nothing else happens
+		r.height += int64(a.D)
+		r.ctx = r.ctx.WithBlockHeight(r.height).WithBlockTime(r.ctx.BlockTime().Add(time.Duration(a.D) * 60 * time.Second))
+		res = "adv"
 	case "EndBlock":
 		errs := []string{}
 		r.w.rec.calls = nil
@@ -1090,6 +1122,36 @@ func (r *run) step(s drv.Step) (res string, extra map[string]any) {
 				errs = append(errs, err.Error())
 			}
 		}()
+		// which message the pass stopped at: the same per-message call the keeper's loop makes (ascending ids, stop at
+		// the first error), on another discarded branch
+		failed := 0
+		func() {
+			defer func() { _ = recover() }()
+			probe, _ := r.ctx.CacheContext()
+			_ = r.w.e.Consensus.CheckAndProcessEstimatedMessages(probe)
+			opts, err := r.w.e.Evm.SupportedQueues(probe)
+			if err != nil {
+				return
+			}
+			for _, opt := range opts {
+				if opt.QueueTypeName != queueName {
+					continue
+				}
+				qo := opt.QueueOptions
+				qo.Sg, qo.Ider, qo.Cdc = r.w.e.Consensus, keeperutil.NewIDGenerator(r.w.e.Consensus, nil), r.w.e.Cdc
+				cq, err := cqueue.NewQueue(qo)
+				if err != nil {
+					return
+				}
+				ms, _ := r.w.e.Consensus.GetMessagesFromQueue(probe, queueName, 0)
+				for _, m := range ms {
+					if err := opt.ProcessMessageForAttestation(probe, cq, m); err != nil {
+						failed = r.rel(m.GetId())
+						return
+					}
+				}
+			}
+		}()
 		r.w.rec.calls = nil
 		func() {
 			defer func() { pan = recover() }()
@@ -1100,6 +1162,7 @@ func (r *run) step(s drv.Step) (res string, extra map[string]any) {
 			rt = append(rt, map[string]any{"id": r.rel(c.ID), "succ": c.Succ})
 		}
 		extra["routed"] = rt
+		extra["fail"] = failed
 		raw := strings.Join(errs, " | ")
 		if pan != nil {
 			raw = fmt.Sprintf("panic: %v", pan)
